@@ -98,3 +98,28 @@ contract(
           ("C16.count_len", {"ORD": "ORDER0", "expr": "expr", "j": "len(ORDER0)"})],
     properties=("C16",),
 )
+
+
+# ---- Singularity.is_infinite (C16: only a limit that contains an infinity is left in place) ----------------------
+from .models import sym_attr, TSym as _TSym  # noqa: E402
+from pyvc import interp as I  # noqa: E402
+
+sym_attr("is_finite", TBool)      # sympy's three-valued assumption read as "is_finite is True"
+OO = SV(_TSym, z3.Const("sp.oo", S))
+I.CONSTANTS["sympy.oo"] = OO
+HAS = core.uf("sp.has", S, S, z3.BoolSort())
+
+
+@registry.spec("contains_infinity")
+def _contains_infinity(ctx, st, e):
+    """the expression mentions oo or -oo (ASSUMED reading of Basic.has)"""
+    from .models import sp_un
+    return SV(TBool, z3.Or(HAS(e.t, OO.t), HAS(e.t, sp_un("Neg", OO).t)))
+
+
+contract(
+    A + "Singularity.is_infinite", params={"self": "Sing"}, ret="Bool",
+    ensures={"infinite_iff_the_limit_mentions_an_infinity": "result == contains_infinity(self.replacement)"},
+    properties=("C16",),
+    note="a finite limit that sympy merely cannot PROVE finite (e.g. 1/tau) must still be used as the replacement",
+)
